@@ -302,7 +302,7 @@ func init() {
 	mprops.ErrorHandler = mprops.PanicHandler
 	register(&Prop{
 		ID:   "C16",
-		Rule: "finite sets of (dotted key, plain string value incl. the empty string and values containing %), 1-6 keys of 1-3 path-safe segments drawn from a pool with textual-prefix siblings (log/logging, port/ports, db/dbname-like), half conflict-free and half allowed to conflict (a key that is a dotted prefix of another). kinds: unflatten (utils.Unflatten x50), fromprops (Builder().FromProperties x50), decode (properties text through props.DecoderFn and the file-suffix provider x50; encoder->decoder round trips with EncoderFn, the provider's encoder and DomEncoderFn). Go-side: flatten == kv when conflict-free; all 50 repeats identical for every key set. The resulting tree is compared with the Coq model (sorted-key processing). Non-trivial: key set has a shared dotted prefix. Distinct by Gallina term. Values longer than 80 bytes with blanks around offsets 80/160, 600-byte non-ASCII values, segments differing only in letter case.",
+		Rule: "finite sets of (dotted key, plain string value incl. the empty string and values containing %), 1-6 keys of 1-3 path-safe segments drawn from a pool with textual-prefix siblings (log/logging, port/ports, db/dbname-like), half conflict-free and half allowed to conflict (a key that is a dotted prefix of another). kinds: unflatten (utils.Unflatten x50), fromprops (Builder().FromProperties x50), decode (properties text through props.DecoderFn and the file-suffix provider x50; encoder->decoder round trips with EncoderFn, the provider's encoder and DomEncoderFn). Go-side: flatten == kv when conflict-free; all 50 repeats identical for every key set. The resulting tree is compared with the Coq model (sorted-key processing). Non-trivial: key set has a shared dotted prefix. Distinct by Gallina term. Values longer than 80 bytes with blanks around offsets 80/160, 600-byte non-ASCII values, segments differing only in letter case. Go-side probe (cases 17, 317, 617, 917): 21000-25000 pairs (more than a mebibyte) through EncoderFn/DecoderFn/FromMap, with keys longer than 100 characters.",
 		Corpus: func() []Case {
 			return []Case{
 				c16Case(nil, map[string]string{"a": "1", "a.b": "2"}, 0), // pinned: order dependent
